@@ -42,6 +42,12 @@ CHECKS["C02"] = dict(
   technique="Lean 4 proof (byte-level refinement kernel = userspace = first-match spec) + three-way differential correspondence (Go overlay harness, native C build of tproxy.c)",
   design="§10 C02")
 
+CHECKS["C04"] = dict(
+  text="Lean theorems (unbounded: all parser-producible rule lists, all geodata, all packets/questions): the program compiled after alias rewriting, geodata expansion, neighbour merging, condition/value sorting and duplicate removal decides exactly like first-match over the rules as written — traffic_compiled_decides_as_written, dns_request_compiled_decides_as_written (incl. SplitRequestRules), dns_response_compiled_decides_as_written; stage-by-stage preservation lemmas; necessity witnesses (merging negated neighbours is unsound). Partial only for the daedns internal selectors (sub/node/subnode), which bypass RulesBuilder.Apply. Tied to /repo by running the real optimizer chains (AST compared up to the proved normal-form equivalence), the real builders/matchers and a brute-force first-match evaluator on generated neighbour-heavy rule lists, with the optimizer list at each production call site read by go/ast.",
+  note="Trusted: Lean kernel + standard axioms; leaf-value truth and geodata decoding are tied to the real code (oracles), not proved; internal_selectors theorem is _partial (hypothesis: no function left without parameters by the expansion).",
+  technique="Lean 4 proof (semantic preservation of each optimizer + pipeline) + differential correspondence (go test -overlay, go/ast call-site extraction)",
+  design="§10 C04")
+
 def main():
     checks = []
     for pid in ALL:
